@@ -4,6 +4,8 @@ import (
 	"encoding/hex"
 	"errors"
 	"fmt"
+	"math/big"
+	"net/url"
 	"strings"
 
 	"rivaas.dev/router"
@@ -12,9 +14,10 @@ import (
 
 // argT is one Stringf argument in a form that survives the JSON comment.
 type argT struct {
-	K string // s string (hex), i int, f float, b bool, n nil, e error, is []int, bs []byte (hex), st struct, sr fmt.Stringer
-	S string `json:",omitempty"`
-	I int64  `json:",omitempty"`
+	K string // s string (hex), i int, f float, b bool, n nil, e error, is []int, bs []byte (hex), st struct, sr fmt.Stringer,
+	// es error+Stringer, fs Formatter+Stringer, bf *big.Float, np nil *url.URL, ur *url.URL
+	S string  `json:",omitempty"`
+	I int64   `json:",omitempty"`
 	F float64 `json:",omitempty"`
 }
 
@@ -22,6 +25,18 @@ type pointT struct{ X, Y int }
 type namedT string
 
 func (n namedT) String() string { return "<" + string(n) + ">" }
+
+// errStringerT is an error that also has a String method: fmt prints Error().
+type errStringerT struct{ s string }
+
+func (e errStringerT) Error() string  { return "error(" + e.s + ")" }
+func (e errStringerT) String() string { return "string(" + e.s + ")" }
+
+// fmtStringerT formats itself (fmt.Formatter) and has a String method: fmt calls Format.
+type fmtStringerT struct{ s string }
+
+func (f fmtStringerT) Format(st fmt.State, verb rune) { fmt.Fprintf(st, "F[%c|%s]", verb, f.s) }
+func (f fmtStringerT) String() string                 { return "string(" + f.s + ")" }
 
 func (a argT) val() any {
 	switch a.K {
@@ -47,6 +62,16 @@ func (a argT) val() any {
 		return pointT{int(a.I), -1}
 	case "sr":
 		return namedT(a.S)
+	case "es":
+		return errStringerT{a.S}
+	case "fs":
+		return fmtStringerT{a.S}
+	case "bf":
+		return big.NewFloat(a.F)
+	case "np":
+		return (*url.URL)(nil) // nil pointer whose String method dereferences: fmt prints <nil>
+	case "ur":
+		return &url.URL{Scheme: "https", Host: "example.com", Path: "/" + a.S}
 	}
 	panic("bad arg kind " + a.K)
 }
@@ -64,7 +89,16 @@ var fmtVerbs = []string{"%s", "%s", "%s", "%s", "%d", "%v", "%q", "%x", "%5s", "
 	"%.3s", "%10.2s", "%#x", "%#q", "%08.3f", "%[3]s", "%[0]s", "%-s", "%+s", "%#s", "%0s", "%ss", "%S"}
 var fmtStrings = []string{"", "x", "hello", "%s", "%", "%d", "héllo", "a b", "\x00", "日本", "100%", "\xff"}
 
+// stringish: operands other than a plain string that %s prints as text (each through a different fmt rule)
+func genStringish(r *hx.Rand) argT {
+	return hx.Pick(r, []argT{{K: "sr", S: "nm"}, {K: "es", S: "x"}, {K: "fs", S: "y"}, {K: "bf", F: 1.5}, {K: "np"}, {K: "ur", S: "p"},
+		{K: "e", S: "boom"}, {K: "bs", S: "6869"}, {K: "n"}})
+}
+
 func genArg(r *hx.Rand) argT {
+	if r.Chance(1, 10) {
+		return genStringish(r)
+	}
 	switch r.Intn(14) {
 	case 0, 1, 2, 3, 4, 5:
 		return argT{K: "s", S: hex.EncodeToString([]byte(hx.Pick(r, fmtStrings)))}
@@ -124,6 +158,9 @@ func genFmt(r *hx.Rand) *fmtCase {
 		plain := []string{"", "a", "100", "hello ", " world", "x=", "\n", "{}", "s", "é"}
 		b.WriteString(hx.Pick(r, plain) + "%s" + hx.Pick(r, plain))
 		k.Args = []argT{{K: "s", S: hex.EncodeToString([]byte(hx.Pick(r, fmtStrings)))}}
+		if r.Chance(1, 3) { // the same shape with an operand that is not a string but prints as one
+			k.Args = []argT{genStringish(r)}
+		}
 	case 1, 2: // the neighbourhood of the fast path: one string argument, a "%s" somewhere
 		pieces := []string{"%s", "%%", "%", "%d", "%5s", "a", "100", "%%s", "%s%", "s", "% s", "%[1]s", " ", "%v"}
 		n := r.Range(1, 4)
@@ -231,6 +268,9 @@ func emitFmt(id string, k *fmtCase, st *hx.Stats) string {
 		}
 		if strings.Contains(want, "%!") {
 			st.Count("F_sprintf_error_marker")
+		}
+		if len(vals) == 1 && k.Args[0].K != "s" && strings.Count(format, "%") == 1 && strings.Contains(format, "%s") {
+			st.Count("F_single_pct_s_with_non_string_operand")
 		}
 	}
 	return l.String() + hx.Comment(caseT{F: k})
